@@ -64,6 +64,7 @@ pub fn compatible(g: u8, r: Kind) -> bool {
 pub struct CmpStats {
     pub steps_compared: usize,
     pub content_dependent_steps: usize,
+    pub gets_beyond_255: usize,
 }
 
 /// Execute `out` on the reference machine, one opcode per trace step, and compare states.
@@ -84,7 +85,7 @@ pub fn compare(out: &[u8], tr: &Trace) -> Result<CmpStats, Fail> {
     if pos != tr.header_len {
         return Err(Fail::new("header-misaligned", format!("header ends at {} but trace says {}", pos, tr.header_len)));
     }
-    let mut cs = CmpStats { steps_compared: 0, content_dependent_steps: 0 };
+    let mut cs = CmpStats { steps_compared: 0, content_dependent_steps: 0, gets_beyond_255: 0 };
     for (i, s) in tr.steps.iter().enumerate() {
         if s.out_len > out.len() || s.out_len <= pos {
             return Err(Fail::new("step-misaligned", format!("step {} ends at {} (previous end {}, output {})", i, s.out_len, pos, out.len())));
@@ -128,6 +129,9 @@ pub fn compare(out: &[u8], tr: &Trace) -> Result<CmpStats, Fail> {
                 ));
             }
         }
+        if m.memo.len() > 256 && GETS.contains(&op.code()) && op.int().map_or(false, |i| i >= 256) {
+            cs.gets_beyond_255 += 1;
+        }
         let refkeys: Vec<usize> = m.memo.keys().map(|k| *k as usize).collect();
         if refkeys != s.memo {
             return Err(Fail::new(
@@ -166,6 +170,7 @@ pub fn judge(a: &Analysis, st: &mut Stats) -> Result<bool, Fail> {
     let cs = compare(out, &a.trace)?;
     st.add("steps compared", cs.steps_compared as u64);
     st.add("content-dependent steps compared", cs.content_dependent_steps as u64);
+    st.add("GET-family steps with a memo index >= 256", cs.gets_beyond_255 as u64);
     Ok(cs.steps_compared >= 20 && cs.content_dependent_steps >= 1)
 }
 
@@ -207,6 +212,15 @@ pub fn run(ctx: &Ctx) -> Outcome {
     let mut p5 = Profile::safe();
     p5.protocols = vec![5];
     let r = run_prop(ctx, 2, ctx.n(10_000, 300_000), || crate::case::gencase(&p5), |c: &GenCase, st: &mut Stats| check_case(ctx, c, st));
+    out.absorb(r);
+    // long histories: hundreds of memo entries (indices beyond one byte), deep stacks
+    let mut big = Profile::safe();
+    big.protocols = vec![1, 2, 3, 4, 5, 0];
+    big.size = SizeMode::Range(3000, 7000);
+    let r = run_prop(ctx, 3, ctx.n(320, 12_000), || crate::case::gencase(&big), |c: &GenCase, st: &mut Stats| {
+        st.label("long history (3000-7000 opcodes)");
+        check_case(ctx, c, st)
+    });
     out.absorb(r);
     crate::props::tree::run_tree(ctx, &mut out, ctx.n(4, 5) as usize, crate::props::tree::TreeOracle::C17);
     out.assumptions = vec![
